@@ -15,7 +15,7 @@
    Named deviations (accepted only when listed in known_findings.txt, see CallFrames.tla):
      Dev_RevertAcrossSuicideLosesStorage   the real state matches the world re-executed with devS
      Dev_NestedFailVersionGapPanics        the real run panicked exactly where devG predicts it *)
-EXTENDS CallFramesOps, TraceBase
+EXTENDS CallFramesOps, TraceBase, SequencesExt
 CONSTANTS AllowedDev, DepthLimit
 VARIABLES bal0, stor0
 tvars == <<bal0, stor0, l>>
@@ -125,8 +125,9 @@ Step(m, e) ==
          [] OTHER -> Bad(m, "unknown event")
 \* the gap flag only matters for the crash prediction; without devG reasoning executions continue past a gap
 StepFixed(m, e) == Step([m EXCEPT !.gap = FALSE], e)
-RECURSIVE Fold(_, _, _, _)
-Fold(m, obs, i, strict) == IF i > Len(obs) THEN m ELSE Fold(IF strict THEN Step(m, obs[i]) ELSE StepFixed(m, obs[i]), obs, i + 1, strict)
+\* (SequencesExt!FoldLeft is evaluated iteratively by its Java override: no deep recursion, no chain of lazy values)
+Fold(m, obs, i, strict) ==
+  FoldLeft(LAMBDA acc, e : IF ~acc.ok THEN acc ELSE IF strict THEN Step(acc, e) ELSE StepFixed(acc, e), m, obs)
 M0(devS) == [w |-> World0(devS, FALSE, bal0, stor0), fs |-> <<>>, ok |-> TRUE, gap |-> FALSE, why |-> ""]
 
 FinMatches(w, fin) ==
@@ -150,14 +151,16 @@ CrashedAtGap(r) ==
   /\ r.crash = GapMsg /\ m.ok /\ ~m.gap /\ m.fs # <<>>
   /\ f.end \in {"revert", "err"} /\ GapIn(m.w.jr, f.mark)
 
+\* (IF-THEN-ELSE, not a disjunction: a deviation is only consulted when the correct reading does not match)
 RunSandboxed(r) ==
   /\ GLeq(r.left, r.gas)                                    \* never more gas left than supplied
   /\ r.maxd <= DepthLimit
-  /\ \/ r.crash = "" /\ Completed(r, FALSE)
-     \/ r.crash = "" /\ "Dev_RevertAcrossSuicideLosesStorage" \in AllowedDev /\ Completed(r, TRUE)
-        /\ UseDev("Dev_RevertAcrossSuicideLosesStorage")
-     \/ r.crash # "" /\ "Dev_NestedFailVersionGapPanics" \in AllowedDev /\ CrashedAtGap(r)
-        /\ UseDev("Dev_NestedFailVersionGapPanics")
+  /\ IF r.crash = ""
+     THEN IF Completed(r, FALSE) THEN TRUE
+          ELSE /\ "Dev_RevertAcrossSuicideLosesStorage" \in AllowedDev /\ Completed(r, TRUE)
+               /\ UseDev("Dev_RevertAcrossSuicideLosesStorage")
+     ELSE /\ "Dev_NestedFailVersionGapPanics" \in AllowedDev /\ CrashedAtGap(r)
+          /\ UseDev("Dev_NestedFailVersionGapPanics")
 
 \* the observed events in the vocabulary of the generator
 ActOf(e) ==
@@ -177,23 +180,28 @@ TReset == /\ Ev("reset")
           /\ bal0' = [a \in Addrs |-> E.bal[a]]
           /\ stor0' = [c \in Contracts |-> [s \in Slots |-> E.base[c][s]]]
 \* an action of the behaviour that only extends the program (the tree is run when its outermost frame has ended)
-TBuild == /\ Ev("Enter") \/ Ev("SStore") \/ Ev("Log") \/ Ev("Exit") \/ Ev("Suicide")
+TBuild == /\ Ev("Enter") \/ Ev("EnterTop") \/ Ev("SStore") \/ Ev("Log") \/ Ev("Exit") \/ Ev("Suicide")
           /\ E.run = FALSE
           /\ UNCHANGED <<bal0, stor0>>
 TRun == /\ Ev("Exit") \/ Ev("Suicide") \/ Ev("Tree")
         /\ E.run = TRUE
         /\ Len(E.runs) >= 2 /\ Len(E.runs) % 2 = 0
-        /\ \A i \in 1..Len(E.runs) : RunSandboxed(E.runs[i])
+        /\ (\A i \in 1..Len(E.runs) : RunSandboxed(E.runs[i])) = TRUE     \* (= TRUE: evaluated as a plain expression)
         /\ \A i \in 1..(Len(E.runs) \div 2) : E.runs[2 * i] = E.runs[2 * i - 1]          \* same state, same program => same everything
         /\ E.strict => \A i \in {1, 2} : Prescribed(E.runs[i], E.prog)      \* (the grammar driver's trees are not guarded)
         /\ UNCHANGED <<bal0, stor0>>
 \* arbitrary byte strings / precompile inputs: no panic, gas bound, determinism, failed => nothing changed
+\* (a panic is accepted only as the listed version-gap deviation, by its exact message: arbitrary programs are not
+\* re-executed, so the panic cannot be predicted here - the tree programs do that)
 TRand == /\ Ev("Rand")
-         /\ E.r1.crash = "" /\ E.r2.crash = ""
-         /\ GLeq(E.r1.left, E.r1.gas) /\ E.r1.maxd <= DepthLimit
-         /\ E.r1 = E.r2
-         /\ (E.r1.st # "ok") => /\ E.r1.fin.acc = E.pre.acc /\ E.r1.fin.nlog = E.pre.nlog
-                                /\ E.r1.fin.nfail \in {E.pre.nfail, E.pre.nfail + 1} /\ E.r1.fin.ncreate = E.pre.ncreate
+         /\ (IF E.r1.crash = ""
+             THEN /\ E.r2.crash = ""
+                  /\ GLeq(E.r1.left, E.r1.gas) /\ E.r1.maxd <= DepthLimit
+                  /\ E.r1 = E.r2
+                  /\ (E.r1.st # "ok") => /\ E.r1.fin.acc = E.pre.acc /\ E.r1.fin.nlog = E.pre.nlog
+                                         /\ E.r1.fin.nfail \in {E.pre.nfail, E.pre.nfail + 1} /\ E.r1.fin.ncreate = E.pre.ncreate
+             ELSE /\ E.r1.crash = GapMsg /\ E.r2.crash = GapMsg /\ E.r1.maxd <= DepthLimit
+                  /\ "Dev_NestedFailVersionGapPanics" \in AllowedDev /\ UseDev("Dev_NestedFailVersionGapPanics")) = TRUE
          /\ UNCHANGED <<bal0, stor0>>
 TraceNext == TReset \/ TBuild \/ TRun \/ TRand
 TraceSpec == l = 1 /\ bal0 = <<>> /\ stor0 = <<>> /\ [][TraceNext]_tvars
